@@ -395,7 +395,10 @@ func TestVerifC36FileHistories(t *testing.T) {
 					// sequence is the same as a shorter sequence on a fresh keystore
 					return
 				}
-				if x.Seen(canon(), depth-step-1) {
+				// no pruning while the next operation is already chosen (planned): x.Seen
+				// means "every continuation from here was explored", which only holds when
+				// the continuation is a fresh choice
+				if step+1 >= len(planned) && x.Seen(canon(), depth-step-1) {
 					return
 				}
 			}
